@@ -71,14 +71,18 @@ def subBlock (e : Distr.Env) (w : Distr.World) (s : Distr.SubD) : Outcome Distr.
   | .panic => .panic
 
 /-- which sweeps of the non-MAIN sources failed, read off the faithful execution: a sweep failed
-    when it consulted the fault oracle and the oracle said so -/
+    when the bank was called and nothing arrived in the main account (fault oracle or bank error,
+    e.g. a vesting account whose spendable balance does not cover its whole balance) -/
 def sweepFlags (e : Distr.Env) : Distr.World → List Distr.Account → List Bool
   | _, [] => []
   | w, src :: rest =>
     if src.type = Distr.tMain then sweepFlags e w rest
     else
       match Distr.prepareNotMain e w src with
-      | .ok (_, w1) => (decide (w1.callIdx > w.callIdx) && w.faults.contains w.callIdx) :: sweepFlags e w1 rest
+      | .ok (_, w1) =>
+        -- failed: the bank was called and nothing reached the main account (injected fault or bank error)
+        (decide (w1.callIdx > w.callIdx) && (w.faults.contains w.callIdx ||
+            w1.bank.balance e.mainAddr == w.bank.balance e.mainAddr)) :: sweepFlags e w1 rest
       | _ => []
 
 inductive Verdict where
